@@ -1143,3 +1143,51 @@ Proof.
   - destruct f; cbn [negb]; [destruct (Nat.ltb 0 n); discriminate|]. intros _. rewrite (H4 eq_refl). lia.
   - destruct f; cbn [negb]; [|discriminate]. destruct (Nat.ltb_spec 0 n); [discriminate|]. intros _. lia.
 Qed.
+
+(* ------------------------------------------------------------------ *)
+(* handshake staging and the protocol-handshake gate                  *)
+(* ------------------------------------------------------------------ *)
+(* receiverEncHandshake answers (RcOk) only for a packet readHandshakeMsg accepted AND
+   whose initiator id, key agreement and signature all passed *)
+Theorem receiver_handshake_ok : forall read id_on_curve ecdh_ok sig_recovers,
+  receiver_handshake read id_on_curve ecdh_ok sig_recovers = RcOk ->
+  (read = HPlain \/ read = HOk) /\ id_on_curve = true /\ ecdh_ok = true /\ sig_recovers = true.
+Proof.
+  intros read a b c. unfold receiver_handshake.
+  destruct read; try discriminate; destruct a, b, c; cbn; try discriminate; auto.
+Qed.
+
+Lemma s_arr_len n b s r : s_arr n b = Some (s, r) -> lenN s = n.
+Proof.
+  unfold s_arr. destruct (split b) as [[[[] s0] r0]|]; try discriminate.
+  destruct (N.eqb_spec (lenN s0) n); [|discriminate]. intros E. injection E as <- _. assumption.
+Qed.
+
+(* the protocol handshake is accepted only from a message of at most 2 KiB with code 0
+   whose body decodes and carries a non-zero 64-byte node id *)
+Theorem protocol_handshake_ok : forall code size payload id,
+  read_protocol_handshake code size payload = PhOk id ->
+  size <= 2048 /\ code = 0 /\ lenN id = 64 /\ exists b, In b id /\ b2n b <> 0.
+Proof.
+  intros code size payload id. unfold read_protocol_handshake, base_protocol_max_msg_size.
+  destruct (N.ltb_spec 2048 size); [discriminate|].
+  destruct (N.eqb_spec code 1); [discriminate|].
+  destruct (N.eqb_spec code 0); [|discriminate]. cbn [negb].
+  destruct (proto_body (firstn (N.to_nat size) payload)) as [id0|] eqn:Eb; [|discriminate].
+  destruct (forallb (fun b => b2n b =? 0) id0) eqn:Ez; [discriminate|].
+  intros E. injection E as <-. repeat split; auto.
+  - unfold proto_body in Eb.
+    destruct (s_list (firstn (N.to_nat size) payload)) as [[pl r0]|]; [|discriminate].
+    destruct (s_uint 64 pl) as [[v p1]|]; [|discriminate].
+    destruct (s_bytes p1) as [[nm p2]|]; [|discriminate].
+    destruct (s_list p2) as [[caps p3]|]; [|discriminate].
+    destruct (negb (s_caps (length caps) caps)); [discriminate|].
+    destruct (s_uint 64 p3) as [[lp p4]|]; [|discriminate].
+    destruct (s_arr 64 p4) as [[id1 p5]|] eqn:Ea; [|discriminate].
+    destruct (s_raws (length p5) p5); [|discriminate]. injection Eb as <-.
+    exact (s_arr_len _ _ _ _ Ea).
+  - clear Eb. induction id0 as [|b t IH]; [discriminate|]. cbn [forallb] in Ez.
+    destruct (N.eqb_spec (b2n b) 0).
+    + cbn [andb] in Ez. destruct (IH Ez) as (b' & Hin & Hb). exists b'. split; [now right|assumption].
+    + exists b. split; [now left|assumption].
+Qed.
